@@ -120,6 +120,7 @@ def run(tier, seed, replay=None):
         list_common.yield_contract(ck, ld, 2, 2, skip=lambda c: max(c, default=0) < 2)
     else:
         list_common.yield_contract(ck, ld, 2, 1)
+        list_common.yield_contract(ck, ld, 1, 2, skip=lambda c: max(c, default=0) < 2)      # two files in one subdirectory: the sort matters
     list_common.walk_contract(ck, ld)
     ck.replayers["walk."] = replay_listing
     ck.replayers["yield."] = replay_listing
